@@ -18,14 +18,15 @@ Inductive restore := RNo | RMode | RAll.
 Record version := mkVer {
   restore_state : restore;
   fork_rng      : bool;   (* export() runs the conversion inside torch.random.fork_rng() *)
-  summary_pure  : bool }. (* SuperNetCombiner.summary() does not call sample_alpha() *)
-Definition fixed := mkVer RAll true true.
-Definition upstream := mkVer RNo false false.
+  summary_pure  : bool;   (* SuperNetCombiner.summary() does not call sample_alpha() *)
+  keep_options  : bool }. (* export() leaves the sampling options alone (false: it ends with disable_sampling=False) *)
+Definition fixed := mkVer RAll true true true.
+Definition upstream := mkVer RNo false false true.
 
 (* static facts of the wrapped network *)
 Record config := mkCfg {
   meth      : method;
-  gumbel    : bool;    (* samplers use Gumbel-softmax in training *)
+  gumbel    : bool;    (* samplers are BUILT with Gumbel-softmax (MPS can switch later, see [sopt]) *)
   has_bn    : bool;    (* some BatchNorm updates running statistics in a training forward *)
   has_drop  : bool;    (* some Dropout draws from the global RNG in a training forward *)
   has_fixed : bool;    (* some non-searchable layer is costed when full_cost is on *)
@@ -39,11 +40,18 @@ Definition specid_eqb (a b : specid) : bool :=
   match a, b with SingleA, SingleA | SingleB, SingleB | DictAB, DictAB => true | _, _ => false end.
 
 (* provenance of the sampled coefficients theta_alpha currently stored in the samplers *)
+(* sampling options of the samplers (update_softmax_options): they live outside the parameters *)
+Record sopt := mkOpt {
+  o_disabled : bool;     (* disable_sampling: forward keeps the stored coefficients (MPS) *)
+  o_hard : bool;         (* hard_softmax *)
+  o_gumbel : bool;       (* Gumbel-softmax vs softmax *)
+  o_temp : Z }.          (* identifier of the temperature value *)
+
 Inductive theta :=
-| TInit                       (* whatever construction left there *)
-| TSoft (pv : Z)              (* softmax of the parameters of version pv *)
-| TEval (pv : Z)              (* eval-mode (arg-max) sample of the parameters of version pv (MPS) *)
-| TGumbel (pv : Z) (r : Z).   (* Gumbel sample of parameters pv drawn at RNG position r *)
+| TInit                                     (* whatever construction left there *)
+| TSoft (pv : Z) (h : bool) (t : Z)         (* softmax (one-hot if h) at temperature t of the parameters of version pv *)
+| TEval (pv : Z) (t : Z)                    (* eval-mode (arg-max) sample of the parameters of version pv (MPS) *)
+| TGumbel (pv : Z) (r : Z) (h : bool) (t : Z).   (* Gumbel sample of parameters pv drawn at RNG position r *)
 
 Record state := mkSt {
   pv : Z;                (* version of the parameters (weights and NAS parameters) *)
@@ -53,15 +61,17 @@ Record state := mkSt {
   tr_leaf : bool;        (* .training of the modules inside the seed that are not in S *)
   tr_sub : bool;         (* .training of the modules in S (user code may freeze / unfreeze them: module.eval()) *)
   th : theta;
+  opt : sopt;            (* current sampling options *)
   rng : Z;               (* position of torch's global random stream *)
   spec : specid;         (* current cost specification *)
   polluted : bool }.     (* some plain layer's __dict__ carries the shape keys written by a cost call *)
 
 (* the part of the state the property speaks about (everything but [polluted]) *)
-Definition visible (s : state) := (pv s, bv s, (tr_wrap s, tr_seed s, tr_leaf s, tr_sub s), th s, rng s, spec s).
+Definition visible (s : state) := (pv s, bv s, (tr_wrap s, tr_seed s, tr_leaf s, tr_sub s), th s, opt s, rng s, spec s).
 
 Inductive oop := OExport | OExportNoBn | OSummary | OCost | OGetCost (n : string)
-               | OSetSpec (s : specid) | OForward | OTrainStep | OFlip.
+               | OSetSpec (s : specid) | OForward | OTrainStep | OFlip
+               | OSetOpt (d h g : option bool) (t : option Z).
 Definition is_observer (o : oop) : bool :=
   match o with OExport | OExportNoBn | OSummary | OCost | OGetCost _ => true | _ => false end.
 
@@ -81,21 +91,25 @@ Definition w_drop := 16.
 Definition w_build := 256.
 
 (* sample_alpha() of every sampler, as called by a forward pass of the seed *)
-Definition sample (c : config) (train : bool) (p r : Z) : theta * Z :=
+Definition sample (c : config) (o : sopt) (train : bool) (p r : Z) : theta * Z :=
   match meth c with
   | PIT => (TInit, r)                                            (* no sampler; handled by callers *)
-  | MPS => if train then (if gumbel c then (TGumbel p r, r + w_gumbel) else (TSoft p, r))
-           else (TEval p, r)
-  | SN  => if train && gumbel c then (TGumbel p r, r + w_gumbel) else (TSoft p, r)
+  | MPS => if train then (if o_gumbel o then (TGumbel p r (o_hard o) (o_temp o), r + w_gumbel) else (TSoft p (o_hard o) (o_temp o), r))
+           else (TEval p (o_temp o), r)
+  | SN  => if train && o_gumbel o then (TGumbel p r (o_hard o) (o_temp o), r + w_gumbel) else (TSoft p (o_hard o) (o_temp o), r)
   end.
 Definition bn_flag (c : config) (s : state) := if bn_sub c then tr_sub s else tr_leaf s.
 Definition drop_flag (c : config) (s : state) := if drop_sub c then tr_sub s else tr_leaf s.
 Definition samp_flag (c : config) (s : state) := if samp_sub c then tr_sub s else tr_leaf s.
 Definition resample (c : config) (train : bool) (s : state) : theta * Z :=
-  match meth c with PIT => (th s, rng s) | _ => sample c train (pv s) (rng s) end.
+  match meth c with
+  | PIT => (th s, rng s)
+  | _ => if o_disabled (opt s) then (th s, rng s)             (* sample_alpha_none *)
+         else sample c (opt s) train (pv s) (rng s)
+  end.
 
 Definition set_th_rng (s : state) (t : theta) (r : Z) : state :=
-  mkSt (pv s) (bv s) (tr_wrap s) (tr_seed s) (tr_leaf s) (tr_sub s) t r (spec s) (polluted s).
+  mkSt (pv s) (bv s) (tr_wrap s) (tr_seed s) (tr_leaf s) (tr_sub s) t (opt s) r (spec s) (polluted s).
 
 (* forward of the wrapper = forward of the seed *)
 Definition forward (c : config) (s : state) : state * obs :=
@@ -103,7 +117,7 @@ Definition forward (c : config) (s : state) : state * obs :=
   let r1 := snd (resample c (samp_flag c s) s) in
   let r2 := if drop_flag c s && has_drop c then r1 + w_drop else r1 in
   let b2 := if bn_flag c s && has_bn c then bv s + 1 else bv s in
-  (mkSt (pv s) b2 (tr_wrap s) (tr_seed s) (tr_leaf s) (tr_sub s) t r2 (spec s) (polluted s),
+  (mkSt (pv s) b2 (tr_wrap s) (tr_seed s) (tr_leaf s) (tr_sub s) t (opt s) r2 (spec s) (polluted s),
    OOut (pv s) (bv s) t (tr_leaf s) (tr_sub s) r1).
 
 (* convert(seed, example, 'export'): trace(seed.eval()), ShapeProp forward, new layers *)
@@ -111,14 +125,17 @@ Definition export (v : version) (c : config) (s : state) : state * obs :=
   let o := ONet (pv s) (bv s) in
   let builds := negb (method_eqb (meth c) SN) in
   let r_build := if builds && negb (fork_rng v) then w_build else 0 in
+  (* a variant wraps the conversion in update_softmax_options(disable_sampling=True) ... (disable_sampling=False) *)
+  let o2 := if keep_options v then opt s
+            else match meth c with MPS => mkOpt false (o_hard (opt s)) (o_gumbel (opt s)) (o_temp (opt s)) | _ => opt s end in
   match restore_state v with
-  | RAll => (set_th_rng s (th s) (rng s + r_build), o)
+  | RAll => (mkSt (pv s) (bv s) (tr_wrap s) (tr_seed s) (tr_leaf s) (tr_sub s) (th s) o2 (rng s + r_build) (spec s) (polluted s), o)
   | RMode =>                                  (* self.train(self.training): every module gets the wrapper's flag *)
-    (mkSt (pv s) (bv s) (tr_wrap s) (tr_wrap s) (tr_wrap s) (tr_wrap s) (th s) (rng s + r_build) (spec s) (polluted s), o)
+    (mkSt (pv s) (bv s) (tr_wrap s) (tr_wrap s) (tr_wrap s) (tr_wrap s) (th s) o2 (rng s + r_build) (spec s) (polluted s), o)
   | RNo =>
     let t := fst (resample c false s) in      (* eval-mode forward of shape propagation *)
     let r1 := snd (resample c false s) in
-    (mkSt (pv s) (bv s) (tr_wrap s) false false false t (r1 + r_build) (spec s) (polluted s), o)
+    (mkSt (pv s) (bv s) (tr_wrap s) false false false t o2 (r1 + r_build) (spec s) (polluted s), o)
   end.
 
 Definition summary (v : version) (c : config) (s : state) : state * obs :=
@@ -134,14 +151,14 @@ Definition summary (v : version) (c : config) (s : state) : state * obs :=
 Definition pollutes (c : config) : bool :=
   match meth c with SN => true | _ => full_cost c && has_fixed c end.
 Definition cost_of (c : config) (s : state) (m : metric) : state * obs :=
-  (mkSt (pv s) (bv s) (tr_wrap s) (tr_seed s) (tr_leaf s) (tr_sub s) (th s) (rng s) (spec s) (polluted s || pollutes c),
+  (mkSt (pv s) (bv s) (tr_wrap s) (tr_seed s) (tr_leaf s) (tr_sub s) (th s) (opt s) (rng s) (spec s) (polluted s || pollutes c),
    OCostV m (full_cost c) (th s) (pv s)).
 
 (* one search step: forward, loss + cost regularizer (cost / get_cost "a"), backward, update of every trainable parameter *)
 Definition train_step (c : config) (s : state) : state * obs :=
   let s1 := fst (forward c s) in
   let o := snd (forward c s) in
-  (mkSt (pv s1 + 1) (bv s1) (tr_wrap s1) (tr_seed s1) (tr_leaf s1) (tr_sub s1) (th s1) (rng s1) (spec s1) (polluted s1 || pollutes c), o).
+  (mkSt (pv s1 + 1) (bv s1) (tr_wrap s1) (tr_seed s1) (tr_leaf s1) (tr_sub s1) (th s1) (opt s1) (rng s1) (spec s1) (polluted s1 || pollutes c), o).
 
 Definition cost (c : config) (s : state) : state * obs :=
   match spec s with
@@ -157,11 +174,23 @@ Definition get_cost (c : config) (s : state) (n : string) : state * obs :=
   end.
 
 Definition set_spec (s : state) (sp : specid) : state * obs :=
-  (mkSt (pv s) (bv s) (tr_wrap s) (tr_seed s) (tr_leaf s) (tr_sub s) (th s) (rng s) sp (polluted s), OOk).
+  (mkSt (pv s) (bv s) (tr_wrap s) (tr_seed s) (tr_leaf s) (tr_sub s) (th s) (opt s) (rng s) sp (polluted s), OOk).
 
 (* user code flips the flag of the modules in S (module.eval() / module.train() on BatchNorm, Dropout, samplers) *)
 Definition flip (s : state) : state * obs :=
-  (mkSt (pv s) (bv s) (tr_wrap s) (tr_seed s) (tr_leaf s) (negb (tr_sub s)) (th s) (rng s) (spec s) (polluted s), OOk).
+  (mkSt (pv s) (bv s) (tr_wrap s) (tr_seed s) (tr_leaf s) (negb (tr_sub s)) (th s) (opt s) (rng s) (spec s) (polluted s), OOk).
+
+(* update_softmax_options(temperature, hard, gumbel, disable_sampling): options that are not given keep their value;
+   SuperNet offers temperature and hard only; PIT has no samplers *)
+Definition ov {A} (x : option A) (d : A) : A := match x with Some y => y | None => d end.
+Definition set_opt (c : config) (s : state) (d h g : option bool) (t : option Z) : state * obs :=
+  let o := opt s in
+  let o' := match meth c with
+            | PIT => o
+            | MPS => mkOpt (ov d (o_disabled o)) (ov h (o_hard o)) (ov g (o_gumbel o)) (ov t (o_temp o))
+            | SN => mkOpt (o_disabled o) (ov h (o_hard o)) (o_gumbel o) (ov t (o_temp o))
+            end in
+  (mkSt (pv s) (bv s) (tr_wrap s) (tr_seed s) (tr_leaf s) (tr_sub s) (th s) o' (rng s) (spec s) (polluted s), OOk).
 
 Definition step (v : version) (c : config) (s : state) (o : oop) : state * obs :=
   match o with
@@ -175,6 +204,7 @@ Definition step (v : version) (c : config) (s : state) (o : oop) : state * obs :
   | OForward => forward c s
   | OTrainStep => train_step c s
   | OFlip => flip s
+  | OSetOpt d h g t => set_opt c s d h g t
   end.
 
 Fixpoint run (v : version) (c : config) (s : state) (ops : list oop) : state :=
@@ -195,15 +225,17 @@ Fixpoint trace_mut (v : version) (c : config) (s : state) (ops : list oop) : lis
 Definition erase (ops : list oop) : list oop := filter (fun o => negb (is_observer o)) ops.
 
 (* [mixed]: the modules in S start with the flag opposite to the wrapper's *)
-Definition init (train mixed : bool) (sp : specid) : state := mkSt 0 0 train train train (xorb train mixed) TInit 0 sp false.
+Definition init (c : config) (train mixed : bool) (sp : specid) : state :=
+  mkSt 0 0 train train train (xorb train mixed) TInit (mkOpt false false (gumbel c) 1) 0 sp false.
 
 (* correspondence helper: observation and full abstract state after every step *)
 Fixpoint run_trace_from (v : version) (c : config) (s : state) (ops : list oop) : list (obs * state) :=
   match ops with [] => [] | o :: r => let '(s', ob) := step v c s o in (ob, s') :: run_trace_from v c s' r end.
 Definition run_trace (v : version) (c : config) (train mixed : bool) (sp : specid) (ops : list oop) :=
-  run_trace_from v c (init train mixed sp) ops.
+  run_trace_from v c (init c train mixed sp) ops.
 
 (* flat encodings for the harness *)
-Definition st_tuple (s : state) := (pv s, bv s, (tr_wrap s, tr_seed s, tr_leaf s, tr_sub s), th s, rng s, spec s, polluted s).
+Definition st_tuple (s : state) := (pv s, bv s, (tr_wrap s, tr_seed s, tr_leaf s, tr_sub s), th s, rng s, spec s, polluted s,
+   (o_disabled (opt s), o_hard (opt s), o_gumbel (opt s), o_temp (opt s))).
 Definition run_trace_t (v : version) (c : config) (train mixed : bool) (sp : specid) (ops : list oop) :=
   map (fun p => (fst p, st_tuple (snd p))) (run_trace v c train mixed sp ops).
